@@ -155,9 +155,10 @@ def _get_paired_crop(
     """
     assert prediction_arr.shape == reference_arr.shape
 
-    combined = prediction_arr + reference_arr
-    if combined.sum() == 0:
-        combined += 1
+    # union of the two foregrounds (adding the label arrays can wrap around in narrow dtypes)
+    combined = np.logical_or(prediction_arr != 0, reference_arr != 0)
+    if not combined.any():
+        combined[...] = True
     return _get_bbox_nd(combined, px_dist=px_pad)
 
 
